@@ -96,6 +96,11 @@ func relPath(p, rootedPath string) string {
 		separator = string(filepath.Separator)
 		slash     = "/"
 	)
+	if p != rootedPath && strings.HasPrefix(rootedPath, p+separator) {
+		// 'p' is a directory above the root (e.g. one that turned out not to be a directory): no name of this FS
+		// denotes it, the closest one is the root
+		return "."
+	}
 	p = strings.TrimPrefix(p, rootedPath)
 	p = strings.ReplaceAll(p, separator, slash)
 	p = strings.TrimPrefix(p, slash)
